@@ -13,13 +13,15 @@ open T2N.Proto
 
 /-- the fixed battery of queries reported after every builder operation -/
 def queries (b : DS) : String :=
-  let peeks := [0, 1, 2, 3, 6].map (fun k => showDigits (b.peek k))
-  let frees := [0, 1, 2, 3, 4, 6].map (fun k => showBool (b.isFree k))
-  let rfs := [(0, 1), (1, 2), (3, 5), (6, 8), (2, 9), (2, 2), (3, 1)].map (fun (s, e) =>
+  -- (the last arguments of each list are extreme: usize::MAX = 2^64 - 1, 2^40)
+  let umax : Nat := 18446744073709551615
+  let peeks := [0, 1, 2, 3, 6, umax].map (fun k => showDigits (b.peek k))
+  let frees := [0, 1, 2, 3, 4, 6, umax].map (fun k => showBool (b.isFree k))
+  let rfs := [(0, 1), (1, 2), (3, 5), (6, 8), (2, 9), (2, 2), (3, 1), (0, umax), (1, umax), (umax - 1, umax), (5, 1099511627776)].map (fun (s, e) =>
     match b.isRangeFree s e with
     | .ok v => showBool v
     | .error _ => "P")
-  let pfs := [0, 1, 2, 3, 7].map (fun p => showBool (b.isPositionFree p))
+  let pfs := [0, 1, 2, 3, 7, 1099511627776, umax].map (fun p => showBool (b.isPositionFree p))
   toString b.len ++ "," ++ showBool b.isEmpty ++ showBool b.isNull ++ showBool b.isOrdinal ++ "," ++
     "/".intercalate peeks ++ "," ++ String.join frees ++ "," ++ String.join rfs ++ "," ++ String.join pfs ++
     "," ++ showDigits b.render
